@@ -532,10 +532,10 @@ func (n *BinaryNode) writeTo(buf *strings.Builder, _, withParens bool) {
 		}
 		buf.WriteRune(')')
 	case BinarySubscript:
-		n.left.writeTo(buf, false, false)
+		n.left.writeTo(buf, false, n.left.Next() != nil)
 		if n.right != nil {
 			buf.WriteString(" " + n.op.String() + " ")
-			n.right.writeTo(buf, false, false)
+			n.right.writeTo(buf, false, n.right.Next() != nil)
 		}
 	case BinaryAnd, BinaryOr, BinaryEqual, BinaryNotEqual, BinaryLess,
 		BinaryGreater, BinaryLessOrEqual, BinaryGreaterOrEqual,
@@ -545,9 +545,9 @@ func (n *BinaryNode) writeTo(buf *strings.Builder, _, withParens bool) {
 			buf.WriteRune('(')
 		}
 
-		n.left.writeTo(buf, false, n.left.priority() <= n.priority())
+		n.left.writeTo(buf, false, operandNeedsParens(n.left, n.priority()))
 		buf.WriteString(" " + n.op.String() + " ")
-		n.right.writeTo(buf, false, n.right.priority() <= n.priority())
+		n.right.writeTo(buf, false, operandNeedsParens(n.right, n.priority()))
 
 		if withParens {
 			buf.WriteRune(')')
@@ -558,6 +558,14 @@ func (n *BinaryNode) writeTo(buf *strings.Builder, _, withParens bool) {
 	if next := n.Next(); next != nil {
 		next.writeTo(buf, true, true)
 	}
+}
+
+// operandNeedsParens returns true if operand must be written in parentheses
+// as an operand of an operator with the given priority: when it does not bind
+// more tightly than the operator, and when it is followed by accessors, which
+// would otherwise apply to its last operand only.
+func operandNeedsParens(operand Node, priority uint8) bool {
+	return operand.priority() <= priority || operand.Next() != nil
 }
 
 // priority returns the priority of n.op.
@@ -619,7 +627,7 @@ func (n *UnaryNode) writeTo(buf *strings.Builder, _, withParens bool) {
 	switch n.op {
 	case UnaryExists:
 		buf.WriteString("exists (")
-		n.operand.writeTo(buf, false, false)
+		n.operand.writeTo(buf, false, n.operand.Next() != nil)
 		buf.WriteRune(')')
 	case UnaryNot, UnaryFilter:
 		buf.WriteString(n.op.String())
@@ -636,7 +644,7 @@ func (n *UnaryNode) writeTo(buf *strings.Builder, _, withParens bool) {
 		}
 
 		buf.WriteString(n.op.String())
-		n.operand.writeTo(buf, false, n.operand.priority() <= n.priority())
+		n.operand.writeTo(buf, false, operandNeedsParens(n.operand, n.priority()))
 
 		if withParens {
 			buf.WriteRune(')')
@@ -873,7 +881,7 @@ func (n *RegexNode) writeTo(buf *strings.Builder, _, withParens bool) {
 		buf.WriteRune('(')
 	}
 
-	n.operand.writeTo(buf, false, n.operand.priority() <= n.priority())
+	n.operand.writeTo(buf, false, operandNeedsParens(n.operand, n.priority()))
 	fmt.Fprintf(buf, " like_regex %q%v", n.pattern, n.flags)
 
 	if withParens {
